@@ -584,6 +584,18 @@ def discharge_partial(an, prog, b, blk, t, c, cls, why):
         idx = [str(a) for a in (c.args or []) + (c.syn_args or [])]
         if any(a.strip() == "std::ops::RangeFull" for a in idx):
             return True, "total index: `x[..]` (RangeFull) selects the whole array/slice and cannot be out of range"
+        # `s.split_at(n)` / `s.split_at_mut(n)` with n = s.len(), or n = min(.., s.len()): mid <= len by construction
+        if re.search(r"<impl \[T\]>::split_at(_mut)?$", c.npath) and len(t["args"]) == 2:
+            recv = canon(peel(an.op(b, t["args"][0]), widen=True)).lstrip("&*")
+            mid = peel(an.op(b, t["args"][1]), widen=True)
+
+            def is_len_of_recv(x):
+                x = peel(x, widen=True)
+                return x[0] == "call" and x[2] is not None and x[2].npath.endswith("<impl [T]>::len") and x[3] and canon(peel(x[3][0], widen=True)).lstrip("&*") == recv
+            if is_len_of_recv(mid):
+                return True, "split_at(s.len()): the split point is the slice's own length"
+            if mid[0] == "call" and mid[2] is not None and (mid[2].nsyn in ("std::cmp::Ord::min", "std::cmp::min") or mid[2].npath.endswith("::min")) and any(is_len_of_recv(a) for a in mid[3]):
+                return True, "split_at(min(.., s.len())): the split point is bounded by the slice's own length"
     if cls == "documented":
         # documented '# Panics' but no discharge class known
         return False, "%s — no discharge rule for this API: %s" % (c.npath, why)
